@@ -33,7 +33,7 @@ Walk(k, s) ==   \* first problem <<tag, step, a, b>> or <<>>
      ELSE Walk(k + 1, ApplyMenuAct(x, Pg.ord, Pg.renames, Pg.files, Pg.menus, s, Pg.acts[Tr.h[k + 1]]))
 
 Check ==
-  LET s0 == Start(x, Pg.renames, IF Tr.f0 = 0 THEN <<"absent">> ELSE <<"lines", Pg.inits[Tr.f0].lines>>)
+  LET s0 == Start(x, Pg.ord, Pg.renames, IF Tr.f0 = 0 THEN <<"absent">> ELSE <<"lines", Pg.inits[Tr.f0].lines>>)
       r == Walk(0, s0)
   IN r = <<>> \/ PrintT(<<r[1], t, i, r[2], r[3], r[4]>>)
 All == i = 0 \/ Tr.err \/ Check
